@@ -223,6 +223,12 @@ def run_op_case(ctx, i):
             a1 = _np(kern.convolved_array_with_mask_from(array=aa.Array2D.no_mask(values=comb, pixel_scales=ps).native, mask=mask))
             ctx.check(ctx.close(a1, out1, TOL), "kernel2d.masked", which="agrees with Convolver on mask U blurring image", expected=out1, got=a1, **W)
 
+        # plain native frames in the types images arrive in (integer counts, single precision): the true convolution of those values
+        for dname, frame in (("int64_counts", np.rint(full * 40.0).astype(np.int64)), ("float32", full.astype(np.float32))):
+            okd, outd = ctx.guarded("kernel2d.masked", lambda: np.asarray(_np(kern.convolved_array_with_mask_from(array=frame, mask=mask)), dtype=float))
+            if okd:
+                expd_ = ref.conv_full(frame.astype(np.float64), k)[~m]
+                ctx.check(outd.shape == expd_.shape and ctx.close(outd, expd_, TOL), "kernel2d.masked", which="frame dtype " + dname, expected=expd_, got=outd, **W)
         # garbage far outside mask U blurring region, of huge magnitude or non-finite (NaN outside a detector footprint, saturated
         # pixels): the values on the mask are exactly those of the clean image
         outside = m & bm_ref
